@@ -86,7 +86,7 @@ func runC10P(r *simkit.Run, c Cfg) {
 			m := message.Message{Cid: c10Cid(tp, len(sent))}
 			na := tp.Choose(4, "naddr")
 			for j := 0; j < na; j++ {
-				m.Addrs = append(m.Addrs, must(multiaddr.NewMultiaddr(c10Addrs[tp.Choose(len(c10Addrs), "addr")])).Bytes())
+				m.Addrs = append(m.Addrs, must(multiaddr.NewMultiaddr(c10AllAddrs()[tp.Choose(len(c10AllAddrs()), "addr")])).Bytes())
 			}
 			if tp.Chance(1, 3, "orig") {
 				m.OrigPeer = Identity("V2").ID.String()
